@@ -2,6 +2,7 @@
 from __future__ import annotations
 
 import numpy as np
+from hypothesis import strategies as st
 
 from .. import refmath
 from .. import smc_common as sc
@@ -30,17 +31,46 @@ ASSUMPTIONS = [
 ]
 
 
+@st.composite
+def _case(draw):
+    if draw(st.integers(0, 7)) == 0:
+        # the ensemble-kernel SMC variant: continuous problem of the run-based checks, ramped or scalar target with a rate
+        lo = draw(st.floats(0.1, 0.5))
+        return {"mode": "emcee", "sampler": "emcee_smc", "ns": "numpy", "width": "float64", "d": draw(st.integers(1, 2)), "pre": "none", "leak": 0.0,
+                "n": draw(st.integers(24, 60)), "seed": draw(st.integers(0, 2**31 - 1)), "kernel_steps": draw(st.integers(1, 2)), "adaptive": True,
+                "n_final": None, "ckpt_every": None, "resume_pick": None,
+                "target": draw(st.sampled_from([[lo, min(0.95, lo + 0.4)], [lo, min(0.95, lo + 0.4)], lo + 0.2])),
+                "rate": draw(st.sampled_from([0.25, 0.5, 1.0, 2.0])), "sharp": draw(st.sampled_from([1.0, 0.3]))}
+    return draw(sc.table_case(adaptive=True, kmin=0))
+
+
 def cases(tier):
-    return sc.table_case(adaptive=True, kmin=0)
+    return _case()
+
+
+def _emcee_mode(case, ctx):
+    from .. import ckpt_common as cc
+
+    labels = ["emcee_smc", "ramp" if isinstance(case["target"], list) else "scalar", f"rate:{case['rate']}"]
+    P = cc.CkptProblem(case)
+    _, h = P.run()
+    if P.rejected:
+        return {"nontrivial": False, "labels": labels + ["rejected:documented-NaN-ValueError"]}
+    return _check_steps(case, h, ctx, labels)
 
 
 def run_case(case, ctx):
+    if case.get("mode") == "emcee":
+        return _emcee_mode(case, ctx)
     r = sc.run(case)
     labels = [case["ns"], case["width"], case["kind"], case["kernel"], case["route"],
               "ramp" if isinstance(case.get("target"), (list, tuple)) else "scalar"]
     if sc.run_failed(case, r, ctx, labels):
         return {"nontrivial": False, "labels": labels}
-    h = r.history
+    return _check_steps(case, r.history, ctx, labels)
+
+
+def _check_steps(case, h, ctx, labels):
     betas = sc.floats(h.beta)
     pops = h.sample_history
     n = case["n"]
